@@ -466,7 +466,8 @@ def lik_items(rnd, c, rich):
     """all calls on one data set that are on the lattice"""
     d = c["d"]
     cand = [dict(fn="std"), dict(fn="go")]
-    for (W, ws) in (WS1 if d == 1 else WS2):
+    wsets = WS1 if d == 1 else WS2
+    for (W, ws) in (wsets if rich else rnd.sample(wsets, 3)):
         cand.append(dict(fn="std", W=W, ws=ws))
     for gam in GAMS:
         cand.append(dict(fn="std", shr=True, gam=gam))
@@ -474,7 +475,7 @@ def lik_items(rnd, c, rich):
             W, ws = rnd.choice(WS1 if d == 1 else WS2)
             cand.append(dict(fn="std", shr=True, gam=gam, W=W, ws=ws))
     gs = [[0] * d, [1] * d, [2] + [0] * (d - 1), [-1] + [1] * (d - 1), [1, 3][:d], [-2, 1][:d], [3] * d]
-    for g in gs:
+    for g in (gs if rich else [gs[0]] + rnd.sample(gs[1:], 3)):
         cand.append(dict(fn="mean", g=g))
         cand.append(dict(fn="var", g=g))
     items = []
@@ -497,7 +498,7 @@ def lik_scenarios(ctx):
             for y in ((1, 5) if ctx.quick else (0, 1, 2, 5)):
                 small.append(dict(x=[[v] for v in xs], y=[y], s=1, d=1))
     # (2) random 1-D / 2-D data, scales 1, 2, 4
-    n_rand = 500 if ctx.quick else 8000
+    n_rand = 400 if ctx.quick else 3000
     for _ in range(n_rand):
         d = rnd.choice([1, 2, 2])
         n = rnd.randint(d + 3, 8)
@@ -505,6 +506,20 @@ def lik_scenarios(ctx):
         x = [[rnd.randint(lo, hi) for _j in range(d)] for _r in range(n)]
         y = [rnd.randint(lo - 3, hi + 3) for _j in range(d)]
         small.append(dict(x=x, y=y, s=rnd.choice([1, 1, 2, 4]), d=d))
+    # (3) 2-D data whose columns have rational standard deviations (the mean adjustment needs them)
+    sq = {}
+    for n in (5, 6, 7, 8):
+        for xs in itertools.combinations_with_replacement(range(0, 5), n):
+            cjj = n * sum(v * v for v in xs) - sum(xs) ** 2
+            m = cjj * n * (n - 1)
+            if cjj > 0 and math.isqrt(m) ** 2 == m:
+                sq.setdefault(n, []).append(list(xs))
+    for _ in range(150 if ctx.quick else 1000):
+        n = rnd.choice(sorted(sq))
+        a, b = list(rnd.choice(sq[n])), list(rnd.choice(sq[n]))
+        rnd.shuffle(a)
+        rnd.shuffle(b)
+        small.append(dict(x=[[a[r], b[r]] for r in range(n)], y=[rnd.randint(-1, 6), rnd.randint(-1, 6)], s=rnd.choice([1, 2]), d=2))
     for c in small:
         key = (tuple(map(tuple, c["x"])), tuple(c["y"]), c["s"])
         if key in seen:
@@ -1015,9 +1030,9 @@ def design_runs(ctx):
     runs.append(("BslRound", "br_neg_simfirst", BR_CFG % (4, 2, 2, "TRUE", "FALSE", invs(["NoSimForRejected"])), False, None))
     if not ctx.quick:
         runs.append(("MC_BslMh", "mh_dim2", MH_CFG % (2, "TRUE", "TRUE", invs(MH_INVS)), True, mh_act))
-        runs.append(("MC_SynLik", "sl_d1_big", sl(6, 1, "0, 1, 2, 4", "0, 1, 3, 6", "1, 2", 0, True, SL_INVS), True, ["Whiten"]))
+        runs.append(("MC_SynLik", "sl_d1_big", sl(6, 1, "0, 1, 2, 4", "0, 3, 6", "1, 2", 0, True, SL_INVS), True, ["Whiten"]))
         runs.append(("MC_SynLik", "sl_d2_y", sl(5, 2, "0, 1", "0, 3", "1", 0, True, SL_INVS), True, ["Whiten"]))
-        runs.append(("MC_SynLik", "sl_d2_n6", sl(6, 2, "0, 1", "1, 4", "1", 0, True, SL_INVS), True, ["Whiten"]))
+        runs.append(("MC_SynLik", "sl_d2_n6", sl(6, 2, "0, 1", "4", "1", 0, True, SL_INVS), True, ["Whiten"]))
         runs.append(("BslRound", "br_n6", BR_CFG % (6, 3, 3, "TRUE", "TRUE", invs(BR_INVS, "Terminates")), True, br_act))
         runs.append(("BslRound", "br_n7", BR_CFG % (7, 2, 4, "TRUE", "TRUE", invs(BR_INVS, "Terminates")), True, br_act))
     return runs
